@@ -31,7 +31,7 @@ na = [{"property_id": pid, "reason": t.NOT_APPLICABLE.get(pid, "check not built 
 hooks_commits = subprocess.run(["git", "-C", "/repo", "log", "--format=%h %s", "--grep=^verif hooks"], stdout=subprocess.PIPE, text=True).stdout.strip().splitlines()
 manifest = {
     "version": 1,
-    "setup_cmd": "cd /verif/harness && CARGO_NET_OFFLINE=true cargo build --release --offline --workspace",
+    "setup_cmd": "cd /verif/harness && CARGO_NET_OFFLINE=true cargo build --release --offline " + " ".join("-p " + c for c in sorted({p["crate"] for v in parts.values() for p in v["parts"]})),
     "hooks": {
         "guard": "cargo feature `verif` (anda_db_utils, anda_db, anda_db_btree, anda_db_tfs, anda_db_hnsw, anda_object_store)",
         "enable": "the harness workspace /verif/harness depends on /repo/rs/* by path with features = [\"verif\"]; hooks are inert unless a scheduler/clock/seed is installed on the calling thread",
